@@ -1,7 +1,7 @@
 """C15 - created entities exist, and attribute data reads back what was written"""
-from ..rules import data, memo, forward
+from ..rules import data, memo, forward, search
 
-DECIDES = ("create on existing / update on missing raise SpilException before any file-system effect, parents first (R-CHKEFF); set folds attribute/value whenever an attribute is named and delegates to update (R-SET); the dumped mapping is previous.update(new) (R-OVERLAY); writer and reader derive the sidecar from the Sid's own path by one pure function (R-SIDECAR); each record is a fresh dictionary, 'sid' added after loading (R-GETDATA, R-MUTDEFAULT); nothing on the data path is memoised or keeps state (R-PUREMEMO, R-NOSTATE); writer / getter thread their configuration (R-FWD).")
+DECIDES = ("create on existing / update on missing raise SpilException before any file-system effect, parents first (R-CHKEFF); set folds attribute/value whenever an attribute is named and delegates to update (R-SET); the dumped mapping is previous.update(new) (R-OVERLAY); writer and reader derive the sidecar from the Sid's own path by one pure function (R-SIDECAR); each record is a fresh dictionary, 'sid' added after loading (R-GETDATA, R-MUTDEFAULT); nothing on the data path is memoised or keeps state (R-PUREMEMO, R-NOSTATE); writer / getter thread their configuration (R-FWD). Also: a created entity is not hidden by a duplicate filter filled before the yield guards (R-DEDUP).")
 DOES_NOT_DECIDE = 'the history semantics (what exists when), isolation between paths at run time'
 
 
@@ -16,4 +16,5 @@ def rules(ctx, tier):
         lambda: memo.rule_purememo(ctx),
         lambda: memo.rule_nostate(ctx),
         lambda: forward.rule_fwd_config(ctx),
+        lambda: search.rule_dedup(ctx),
     ]
